@@ -10,6 +10,7 @@ import (
 	"math/big"
 
 	"gitlab.com/yawning/secp256k1-voi/secec"
+	"gitlab.com/yawning/secp256k1-voi/secec/bitcoin"
 
 	"verif/lib"
 	"verif/mc"
@@ -29,6 +30,18 @@ func runRecover(digest []byte, r, s *big.Int, v int) string {
 	}
 	if !bytes.Equal(dg, digest) || !bytes.Equal(rs.Bytes(), ref.B32(r)) || !bytes.Equal(ss.Bytes(), ref.B32(s)) {
 		return "operands modified"
+	}
+	// recovery is a function of (digest, r, s, id): the same question asked again straight away - after a failure as
+	// well as after a success - gets the same answer
+	for n := 2; n <= 3; n++ {
+		var pk2 *secec.PublicKey
+		var err2 error
+		if pn := lib.Try(func() { pk2, err2 = secec.RecoverPublicKey(dg, rs, ss, byte(v)) }); pn != "" {
+			return "panic: " + pn
+		}
+		if (err == nil) != (err2 == nil) || (err == nil && !bytes.Equal(pk.Bytes(), pk2.Bytes())) {
+			return fmt.Sprintf("call #%d with the same arguments answers differently from call #1 (err %v vs %v): the result depends on the call history", n, err2, err)
+		}
 	}
 	if werr != nil {
 		if err == nil {
@@ -63,7 +76,51 @@ func runRecover(digest []byte, r, s *big.Int, v int) string {
 	return ""
 }
 
+// runSignRecover: "for a signature produced by Sign the emitted id recovers the signer and no other id does" - the
+// signer is a key OBJECT with a life: built from a scalar the caller goes on using, asked for its scalar / bytes (which
+// the caller then modifies in place, as in child-key derivation), used to derive a Schnorr key, and only then signing.
+func runSignRecover(d *big.Int, digest []byte, rfc bool) string {
+	own := lib.MkSC(d)
+	k, err := secec.NewPrivateKeyFromScalar(own)
+	if err != nil {
+		return "NewPrivateKeyFromScalar: " + err.Error()
+	}
+	own.Add(own, lib.MkSC(big.NewInt(1)))
+	h := k.Scalar()
+	h.Add(h, lib.MkSC(big.NewInt(5)))
+	b := k.Bytes()
+	b[31] ^= 1
+	_ = bitcoin.NewSchnorrPrivateKeyFromECDSA(k)
+	q := ref.BaseMul(d)
+	if !bytes.Equal(k.PublicKey().Bytes(), q.Uncompressed()) {
+		return "the signer's public key is not d*G"
+	}
+	var rd interface{ Read([]byte) (int, error) } = mc.Script{Src: "counter", Mode: "full", FailAfter: -1}.New()
+	if rfc {
+		rd = secec.RFC6979SHA256()
+	}
+	rs, ss, v, err := k.SignRaw(rd, digest)
+	if err != nil {
+		return "SignRaw: " + err.Error()
+	}
+	if !ref.ECDSAVerify(q, digest, lib.SCVal(rs), lib.SCVal(ss)) {
+		return "the signature does not verify under d*G (reference): the key object no longer signs with the scalar it was built from"
+	}
+	for id := 0; id < 256; id++ {
+		pk, err := secec.RecoverPublicKey(digest, rs, ss, byte(id))
+		is := err == nil && pk.Equal(k.PublicKey()) && bytes.Equal(pk.Bytes(), q.Uncompressed())
+		if id == int(v) && !is {
+			return fmt.Sprintf("the emitted recovery id %d does not recover the signer's public key", v)
+		}
+		if id != int(v) && is {
+			return fmt.Sprintf("recovery id %d (emitted: %d) also recovers the signer", id, v)
+		}
+	}
+	return ""
+}
+
 func register() {
+	mc.Register("signrecover", func(d mc.D) string { return runSignRecover(d.Big("d"), d.B("digest"), d.Bool("rfc6979")) })
 	mc.Register("recover", func(d mc.D) string { return runRecover(d.B("digest"), d.Big("r"), d.Big("s"), d.I("v")) })
 }
 
@@ -169,6 +226,19 @@ func main() {
 			r, s, _ := ref.ECDSASignRFC6979(d, dg)
 			cases = append(cases, tc{dg, r, s, "reference-signed"})
 			cases = append(cases, tc{dg, r, new(big.Int).Sub(ref.N, s), "reference-signed, high s"})
+		}
+	}
+	// signatures produced by Sign on key objects with a history (see runSignRecover)
+	for _, d := range []*big.Int{one, big.NewInt(2), big.NewInt(6), nm1, ref.Lambda, ref.HalfN} {
+		for _, dg := range digests[:3] {
+			if len(dg) < 32 {
+				continue
+			}
+			for _, rfc := range []bool{false, true} {
+				R.T(257)
+				R.Class("signed by the library on a key object with a history; all 256 ids", 1)
+				R.Run("sign+recover/key object history", "signrecover", mc.D{"d": mc.HexBig(d), "digest": mc.Hex(dg), "rfc6979": rfc})
+			}
 		}
 	}
 	R.Bound("triples", len(cases))
